@@ -1,8 +1,13 @@
 //! I->S recorder for C10: drives the real *sender*.
 //!
-//! A real in-memory `Zone` with random content goes through a random
-//! sequence of committed changes (the `InMemoryZoneDiff`s are collected from
-//! the commits); the zone + diffs are served through
+//! A real in-memory `Zone` with random content (every RRset with a TTL of
+//! its own) goes through a random sequence of committed changes (the
+//! `InMemoryZoneDiff`s are collected from the commits).  Write sessions
+//! alternate between two styles: "updater" (DeleteRecord / AddRecord through
+//! a `ZoneUpdater`, TTLs unchanged) and "direct" (the primary rewrites every
+//! changed RRset once through `WritableZoneNode::update_rrset` /
+//! `remove_rrset`; RRsets change their TTL alone, or together with losing,
+//! gaining or replacing members).  The zone + diffs are served through
 //! `XfrMiddlewareSvc::preprocess` over a TCP context (with reserved bytes so
 //! that responses are split into several messages) for AXFR and for IXFR
 //! from every older serial, from the current serial and from an unknown one.
@@ -28,11 +33,12 @@ use domain::net::server::service::{
 };
 use domain::zonetree::types::ZoneUpdate;
 use domain::zonetree::update::ZoneUpdater;
-use domain::zonetree::{InMemoryZoneDiff, StoredName, Zone};
+use domain::base::name::ToLabelIter;
+use domain::zonetree::{InMemoryZoneDiff, Rrset, SharedRrset, StoredName, Zone};
 use futures_util::stream::Once;
 use futures_util::StreamExt;
 use serde_json::{json, Value};
-use std::collections::BTreeSet;
+use std::collections::{BTreeMap, BTreeSet};
 use std::future::{ready, Future, Ready};
 use std::ops::ControlFlow;
 use std::pin::Pin;
@@ -177,7 +183,103 @@ async fn serve(provider: ZoneWithDiffs, req: &Request<Vec<u8>, ()>) -> Result<Ve
 }
 
 fn rec(id: i64) -> Record<StoredName, StoredData> {
-    Record::new(owner_of(id), Class::IN, Ttl::from_secs(TTL), data_of(id))
+    Record::new(owner_of(id), Class::IN, ttl_of(id), data_of(id))
+}
+
+/// A zone version of the recorder: base ids + the TTL index of every RRset.
+#[derive(Clone, Default)]
+struct Content {
+    bases: BTreeSet<i64>,
+    tt: BTreeMap<(i64, i64), i64>,
+}
+
+impl Content {
+    fn random(rng: &mut Rng, universe: &[i64], num: u64, den: u64) -> Self {
+        let mut c = Content::default();
+        for b in universe {
+            c.tt.entry(key_of(*b)).or_insert_with(|| rng.below(TTLS.len() as u64) as i64);
+            if rng.chance(num, den) {
+                c.bases.insert(*b);
+            }
+        }
+        c
+    }
+    fn rid(&self, base: i64) -> i64 {
+        base + TT * self.tt[&key_of(base)]
+    }
+    fn rids(&self) -> Vec<i64> {
+        let mut v: Vec<i64> = self.bases.iter().map(|b| self.rid(*b)).collect();
+        v.sort();
+        v
+    }
+    fn members(&self, key: (i64, i64)) -> Vec<i64> {
+        self.bases.iter().cloned().filter(|b| key_of(*b) == key).collect()
+    }
+}
+
+/// How an RRset present before and after changes when its TTL changes.
+fn class_of(a: &Content, b: &Content, key: (i64, i64)) -> Option<&'static str> {
+    let (ma, mb) = (a.members(key), b.members(key));
+    if ma.is_empty() || mb.is_empty() || a.tt[&key] == b.tt[&key] {
+        return None;
+    }
+    let sub = |x: &Vec<i64>, y: &Vec<i64>| x.iter().all(|e| y.contains(e));
+    Some(if ma == mb {
+        "ttl_only"
+    } else if sub(&mb, &ma) {
+        "ttl_shrink"
+    } else if sub(&ma, &mb) {
+        "ttl_grow"
+    } else {
+        "ttl_replace"
+    })
+}
+
+/// The primary rewrites every RRset that differs between `old` and `new`
+/// once (update_rrset with the complete new RRset, remove_rrset when nothing
+/// is left), installs the new SOA and commits; returns the diff the zone
+/// reports.
+async fn direct_session(zone: &Zone, old: &Content, new: &Content, serial: i64) -> Option<InMemoryZoneDiff> {
+    let mut write = zone.write().await;
+    let root = write.open(true).await.unwrap();
+    let apex_labels = apex().iter_labels().count();
+    for (key, _) in new.tt.iter() {
+        let (mo, mn) = (old.members(*key), new.members(*key));
+        if mo == mn && (mn.is_empty() || old.tt[key] == new.tt[key]) {
+            continue;
+        }
+        let some = mo.first().or(mn.first()).cloned().unwrap();
+        let owner = owner_of(some);
+        let labels: Vec<_> = owner.iter_labels().collect();
+        let down = &labels[..labels.len() - apex_labels];
+        let mut node = None;
+        for label in down.iter().rev() {
+            let next = match &node {
+                None => root.update_child(label).await.unwrap(),
+                Some(n) => {
+                    let n: &Box<dyn domain::zonetree::WritableZoneNode> = n;
+                    n.update_child(label).await.unwrap()
+                }
+            };
+            node = Some(next);
+        }
+        let target = node.as_ref().unwrap_or(&root);
+        if mn.is_empty() {
+            target.remove_rrset(rtype_of(some)).await.unwrap();
+        } else {
+            let mut rr = Rrset::new(rtype_of(some), ttl_of(new.rid(mn[0])));
+            for b in &mn {
+                rr.push_data(data_of(*b));
+            }
+            target.update_rrset(SharedRrset::new(rr)).await.unwrap();
+        }
+        drop(node);
+    }
+    let mut soa = Rrset::new(Rtype::SOA, Ttl::from_secs(TTL));
+    soa.push_data(data_of(SOA_BASE + serial));
+    root.update_rrset(SharedRrset::new(soa)).await.unwrap();
+    drop(root);
+    write.commit(false).await.unwrap()
 }
 
 fn main() {
@@ -202,10 +304,9 @@ fn main() {
         let base: u32 = 0u32.wrapping_sub(wrap_at);
         SERIAL_BASE.store(base, std::sync::atomic::Ordering::SeqCst);
         // --- the sender zone and its history
-        let mut cur: BTreeSet<i64> =
-            universe.iter().cloned().filter(|_| rng.chance(1, 2)).collect();
-        let zone = build_zone(1, &cur.iter().cloned().collect::<Vec<_>>());
-        let mut versions: Vec<(i64, Vec<i64>)> = vec![(1, cur.iter().cloned().collect())];
+        let mut cur = Content::random(&mut rng, &universe, 1, 2);
+        let zone = build_zone(1, &cur.rids());
+        let mut versions: Vec<(i64, Vec<i64>)> = vec![(1, cur.rids())];
         tw.event(json!({"ev": "new", "round": round, "serial_base": base.to_string(), "want": versions[0].1,
                         "walk": walk_content(&zone, MAX_N)}));
         let mut diffs: Vec<Arc<InMemoryZoneDiff>> = vec![];
@@ -213,31 +314,82 @@ fn main() {
         for k in 0..ncommits {
             let serial = 2 + k;
             let before = walk_content(&zone, MAX_N);
+            let old = cur.clone();
             // every record is touched at most once per write session
             let mut toggles: BTreeSet<i64> = BTreeSet::new();
             for _ in 0..(1 + rng.below(6)) {
                 toggles.insert(*rng.pick(&universe));
             }
-            let diff = rt.block_on(async {
-                let mut up: ZoneUpdater<StoredName> = ZoneUpdater::new(zone.clone()).await.unwrap();
+            let direct = (k + round as i64) % 2 == 0;
+            let mut classes: Vec<&str> = vec![];
+            let diff = if !direct {
+                // ZoneUpdater session; every record carries the TTL of its RRset
+                let d = rt.block_on(async {
+                    let mut up: ZoneUpdater<StoredName> = ZoneUpdater::new(zone.clone()).await.unwrap();
+                    for id in &toggles {
+                        if cur.bases.contains(id) {
+                            up.apply(ZoneUpdate::DeleteRecord(rec(cur.rid(*id)))).await.unwrap();
+                        } else {
+                            up.apply(ZoneUpdate::AddRecord(rec(cur.rid(*id)))).await.unwrap();
+                        }
+                    }
+                    up.apply(ZoneUpdate::Finished(rec(SOA_BASE + serial))).await.unwrap()
+                });
                 for id in &toggles {
-                    if cur.contains(id) {
-                        up.apply(ZoneUpdate::DeleteRecord(rec(*id))).await.unwrap();
-                    } else {
-                        up.apply(ZoneUpdate::AddRecord(rec(*id))).await.unwrap();
+                    if !cur.bases.remove(id) {
+                        cur.bases.insert(*id);
                     }
                 }
-                up.apply(ZoneUpdate::Finished(rec(SOA_BASE + serial))).await.unwrap()
-            });
-            for id in &toggles {
-                if !cur.remove(id) {
-                    cur.insert(*id);
+                d
+            } else {
+                // the primary's own edit: RRsets change their TTL alone (no
+                // member touched), while shrinking, growing, or being replaced
+                let keys: Vec<(i64, i64)> = cur.tt.keys().cloned().collect();
+                let mut planned: BTreeSet<(i64, i64)> = BTreeSet::new();
+                for want in ["ttl_only", "ttl_shrink", "ttl_grow", "ttl_replace", "ttl_only"] {
+                    // a key that can show the wanted change
+                    let cands: Vec<(i64, i64)> = keys.iter().cloned().filter(|key| {
+                        let n = cur.members(*key).len();
+                        !planned.contains(key) && match want {
+                            "ttl_only" => n >= 1,
+                            "ttl_shrink" => n == 2,
+                            _ => n == 1,
+                        }
+                    }).collect();
+                    if cands.is_empty() {
+                        continue;
+                    }
+                    let key = *rng.pick(&cands);
+                    planned.insert(key);
+                    let m = cur.members(key);
+                    let other = |b: i64| if (b - 1) % 2 == 0 { b + 1 } else { b - 1 };
+                    toggles.retain(|b| key_of(*b) != key);
+                    match want {
+                        "ttl_shrink" => { toggles.insert(*rng.pick(&m)); }
+                        "ttl_grow" => { toggles.insert(other(m[0])); }
+                        "ttl_replace" => { toggles.insert(m[0]); toggles.insert(other(m[0])); }
+                        _ => {}
+                    }
+                    let t = cur.tt[&key];
+                    cur.tt.insert(key, (t + 1 + rng.below(TTLS.len() as u64 - 1) as i64) % TTLS.len() as i64);
                 }
-            }
-            versions.push((serial, cur.iter().cloned().collect()));
+                for id in &toggles {
+                    if !cur.bases.remove(id) {
+                        cur.bases.insert(*id);
+                    }
+                }
+                for key in &keys {
+                    if let Some(c) = class_of(&old, &cur, *key) {
+                        classes.push(c);
+                    }
+                }
+                rt.block_on(direct_session(&zone, &old, &cur, serial))
+            };
+            versions.push((serial, cur.rids()));
             tw.event(json!({"ev": "commit", "serial": serial, "before": before,
+                            "mode": if direct { "direct" } else { "updater" }, "classes": classes,
                             "toggles": toggles.iter().cloned().collect::<Vec<_>>(),
-                            "want": cur.iter().cloned().collect::<Vec<_>>(),
+                            "want": cur.rids(),
                             "after": walk_content(&zone, MAX_N),
                             "diff": match &diff { Some(d) => diff_json(d, MAX_N), None => json!({"none": true}) }}));
             if let Some(d) = diff {
@@ -268,8 +420,7 @@ fn main() {
             let (rs, rrecs): (i64, Vec<i64>) = if qtype == Rtype::IXFR && from <= latest {
                 versions[(from - 1) as usize].clone()
             } else {
-                (if from == 0 { 1 } else { from },
-                 universe.iter().cloned().filter(|_| rng.chance(1, 3)).collect())
+                (if from == 0 { 1 } else { from }, Content::random(&mut rng, &universe, 1, 3).rids())
             };
             let zone2 = build_zone(rs, &rrecs);
             let reqmsg = Message::from_octets(Bytes::from(req.message().as_slice().to_vec())).unwrap();
@@ -283,7 +434,10 @@ fn main() {
                 Ok((steps, fin, _)) => (Value::Array(steps), fin, false),
                 Err(_) => (json!([]), walk_content(&zone2, MAX_N), true),
             };
-            tw.event(json!({"ev": "xfer", "req": qtype.to_int(), "from": from, "limit": limit,
+            // an IXFR client that holds the current version is told so by the
+            // lone SOA (RFC 1995 2/4); nothing is transferred
+            let ev = if qtype == Rtype::IXFR && from == latest { "xfer_utd" } else { "xfer" };
+            tw.event(json!({"ev": ev, "req": qtype.to_int(), "from": from, "limit": limit,
                             "reserved": 65535 - limit as u32, "total": sizes.iter().sum::<usize>(),
                             "sizes": sizes, "msgs": abs,
                             "rold": {"soa": rs, "recs": rrecs},
